@@ -51,9 +51,13 @@ theorem authenticate_spec (s : Srv) (c : Nat) (req : Req) :
   split
   · -- first connection
     rename_i hf
+    unfold handleFirstConnection
+    split
+    · obtain ⟨h1, h2, h3, h4, h5⟩ := recordFailure_frame s (s.ipOf c)
+      exact ⟨h1, fun c' _ => by rw [h2], AOut.err h3 h4 h5 (Or.inl (by rw [h2]))⟩
     refine ⟨⟨rfl, rfl, rfl, rfl, rfl, rfl, rfl, fun _ h => h⟩, ?_, ?_⟩
-    · intro c' hc; simp [handleFirstConnection, setCtl, recordSuccess, upd_other _ _ _ _ hc]
-    · exact AOut.issued rfl rfl rfl hf (by simp [handleFirstConnection, setCtl, recordSuccess, getCtl])
+    · intro c' hc; simp [setCtl, recordSuccess, upd_other _ _ _ _ hc]
+    · exact AOut.issued rfl rfl rfl hf (by simp [setCtl, recordSuccess, getCtl])
   · rename_i hf
     have hf : req.first = false := by simpa using hf
     split
@@ -681,6 +685,10 @@ theorem stepCore_spec (s : Srv) (e : Event) : StepSpec s e (stepCore s e).1 (ste
   | restart => exact StepSpec.of_same fr rfl rfl rfl rfl (Or.inl rfl) (fun _ _ h => h) (fun _ h => by cases h) rfl
   | refill ip => exact StepSpec.of_same fr rfl rfl rfl rfl (Or.inl rfl) (fun _ _ h => h) (fun _ h => by cases h) rfl
   | exp k => exact StepSpec.of_same fr rfl rfl rfl rfl (Or.inl rfl) (fun _ _ h => h) (fun _ h => by cases h) rfl
+  | wl ip => exact StepSpec.of_same fr rfl rfl rfl rfl (Or.inl rfl) (fun _ _ h => h) (fun _ h => by cases h) rfl
+  | unwl ip => exact StepSpec.of_same fr rfl rfl rfl rfl (Or.inl rfl) (fun _ _ h => h) (fun _ h => by cases h) rfl
+  | unexp k => exact StepSpec.of_same fr rfl rfl rfl rfl (Or.inl rfl) (fun _ _ h => h) (fun _ h => by cases h) rfl
+  | issue b => exact StepSpec.of_same fr rfl rfl rfl rfl (Or.inl rfl) (fun _ _ h => h) (fun _ h => by cases h) rfl
   | del k => exact StepSpec.of_same fr rfl rfl rfl rfl (Or.inl rfl) (fun _ _ h => h) (fun _ h => by cases h) rfl
   | strip k st => exact StepSpec.of_same fr rfl rfl rfl rfl (Or.inl rfl) (fun _ _ h => h) (fun _ h => by cases h) rfl
 
@@ -744,6 +752,10 @@ theorem track_cases (g : Env) (now nc : Nat) (e : Event) (r : RespObs) :
   | restart => exact Or.inr (Or.inr ⟨rfl, rfl, rfl⟩)
   | refill ip => exact Or.inr (Or.inr ⟨rfl, rfl, rfl⟩)
   | exp k => right; right; simp only [Env.track]; split <;> exact ⟨rfl, rfl, rfl⟩
+  | unexp k => right; right; simp only [Env.track]; split <;> exact ⟨rfl, rfl, rfl⟩
+  | wl ip => exact Or.inr (Or.inr ⟨rfl, rfl, rfl⟩)
+  | unwl ip => exact Or.inr (Or.inr ⟨rfl, rfl, rfl⟩)
+  | issue b => exact Or.inr (Or.inr ⟨rfl, rfl, rfl⟩)
   | del k => right; right; simp only [Env.track]; split <;> exact ⟨rfl, rfl, rfl⟩
   | strip k st => right; right; simp only [Env.track]; split <;> exact ⟨rfl, rfl, rfl⟩
 
@@ -783,6 +795,10 @@ theorem track_xban (g : Env) (now nc : Nat) (e : Event) (r : RespObs) (ip : Nat)
   | restart => exact Or.inr ⟨h, by simp⟩
   | refill ip' => exact Or.inr ⟨h, by simp⟩
   | exp k => right; refine ⟨?_, by simp⟩; simp only [Env.track] at h; split at h <;> exact h
+  | unexp k => right; refine ⟨?_, by simp⟩; simp only [Env.track] at h; split at h <;> exact h
+  | wl ip' => exact Or.inr ⟨h, by simp⟩
+  | unwl ip' => exact Or.inr ⟨h, by simp⟩
+  | issue b => exact Or.inr ⟨h, by simp⟩
   | del k => right; refine ⟨?_, by simp⟩; simp only [Env.track] at h; split at h <;> exact h
   | strip k st => right; refine ⟨?_, by simp⟩; simp only [Env.track] at h; split at h <;> exact h
 
@@ -1374,6 +1390,10 @@ theorem step_sound {s : Srv} (R : RegSound s) (e : Event) : RegSound (Tunnox.C03
     | restart => exact R
     | refill ip => exact R
     | exp k => exact R
+    | wl ip => exact R
+    | unwl ip => exact R
+    | unexp k => exact R
+    | issue b => exact R
     | del k => exact R
     | strip k st => exact R
   exact h
